@@ -59,6 +59,7 @@ class Cfg(object):
         self.per_task_rules = True
         self.work_pool = None  # override of WORK_POOL (dyadic mode)
         self.warm = 0  # 1 in n specs asks for a warm start (spec.warm_build: morph / graft after an earlier run)
+        self.warm_modes = ["morph", "graft"]  # + "carry" / "append": the model's own run cut short, then unequal initialize flags
         self.servable = 0  # k in 4 specs get a worker (and workplace/facility) that can serve every task
         self.onesided = 0  # 1 in n teams/workplaces has some links on its own side only (0 = never)
         self.abs_p = 3  # 1 in abs_p workers (abs_p+1 facilities) has an own absence list
@@ -346,7 +347,7 @@ def model_spec(draw, cfg):
     if servable:
         make_servable(spec)
     if _one_in(draw, cfg.warm):
-        spec["warm"] = {"mode": draw(st.sampled_from(["morph", "graft"])), "k": draw(st.integers(1, 3))}
+        spec["warm"] = {"mode": draw(st.sampled_from(cfg.warm_modes)), "k": draw(st.integers(1, 3))}
     return spec
 
 
@@ -478,6 +479,62 @@ def pairs_spec(draw, cfg, keep_space=None):
     """model_spec in the "pairs" profile; half of the time the components keep their generated sizes."""
     spec = draw(model_spec(cfg))
     return single_task_components(spec, keep_space=draw(st.booleans()) if keep_space is None else keep_space)
+
+
+@st.composite
+def dense_pairs_spec(draw, cfg, max_workers=2):
+    """Pairs profile in which everybody can do everything (all skills positive, every team and workplace serves every
+    task, room for all components, few workers): who gets a worker is then decided by the priority order alone, also
+    for tasks with nothing left to do (zero work, or held WORKING by a finish-to-finish link). With more workers
+    several worker-facility pairs work on one task at once."""
+    spec = single_task_components(draw(model_spec(cfg)))
+    n = len(spec["tasks"])
+    for tm in spec["teams"]:
+        tm["targets"] = list(range(n))
+        tm.pop("notask", None)
+    for wp in spec["wps"]:
+        wp["targets"] = list(range(n))
+        wp.pop("notask", None)
+        wp["cap"] = 100.0
+    for f in spec["facs"]:
+        f["skills"] = {str(i): draw(st.sampled_from([0.5, 1.0, 1.0])) for i in range(n)}
+        f["solo"] = False
+    spec["workers"] = spec["workers"][: draw(st.integers(1, max_workers))]
+    for w in spec["workers"]:
+        w["skills"] = {str(i): draw(st.sampled_from([0.5, 1.0, 1.0])) for i in range(n)}
+        w["fsk"] = {str(j): 1.0 for j in range(len(spec["facs"]))}
+        w["solo"] = draw(st.booleans()) if max_workers <= 2 else False
+    for t in spec["tasks"]:
+        t["fixw"] = None
+        t["fixf"] = None
+    share_skills_by_name(spec)
+    return spec
+
+
+@st.composite
+def pinned_spec(draw, cfg):
+    """Pairs profile in which many facility tasks insist on one facility that can really serve them (and some also on
+    one or two of the workers): several tasks want the same facility in the same step, and skilled workers who are
+    not on a task's list stand next to an allowed facility."""
+    spec = draw(pairs_spec(cfg))
+    if spec["facs"]:
+        for ti, t in enumerate(spec["tasks"]):
+            if t["nf"] and draw(st.booleans()):
+                fi = draw(st.integers(0, len(spec["facs"]) - 1))
+                f = spec["facs"][fi]
+                t["fixf"] = [fi]
+                f["skills"][str(ti)] = 1.0
+                f["solo"] = False
+                wp = spec["wps"][f["wp"]]
+                if ti not in wp["targets"]:
+                    wp["targets"] = sorted(wp["targets"] + [ti])
+                for w in spec["workers"]:
+                    if draw(st.booleans()):
+                        w["fsk"][str(fi)] = 1.0
+                if spec["workers"] and draw(st.booleans()):
+                    t["fixw"] = draw(st.lists(st.integers(0, len(spec["workers"]) - 1), min_size=1, max_size=2, unique=True))
+        share_skills_by_name(spec)
+    return spec
 
 
 def make_servable(spec):
